@@ -53,8 +53,12 @@ type verifResp struct {
 	Bool        bool                `json:"bool,omitempty"`
 	Registry    map[string][]string `json:"registry,omitempty"`
 	Sweep       *verifSweepResult   `json:"sweep,omitempty"`
+	Sched       interface{}         `json:"sched,omitempty"`
 	Lines       []string            `json:"lines,omitempty"`
 }
+
+// verifSchedHook is set by verif_sched.go in scheduler builds.
+var verifSchedHook func(*verifReq) interface{}
 
 func init() {
 	if os.Getenv("VERIF_RPC") == "" {
@@ -163,6 +167,12 @@ func verifServe(req *verifReq) (resp verifResp) {
 				}
 			}
 		}
+	case "sched":
+		if verifSchedHook == nil {
+			resp.Err = "binary not built with the scheduler overlay"
+			return
+		}
+		resp.Sched = verifSchedHook(req)
 	case "shortenSweep":
 		resp.Sweep = verifShortenSweep(req.Segments, req.DirDepth, req.FileDepth)
 	case "shorten":
